@@ -40,7 +40,7 @@ ASSUMPTIONS = [
     "fp->float->fp identity is required only when the fixed-point value "
     "divided by 2**n_frac is exactly representable in float64",
 ]
-FLOORS = {"large_array_layout": 40, "converter_reused": 2000, "scalar_exact": 5000, "numpy_vs_scalar": 3000,
+FLOORS = {"numpy_invalid_raises": 300, "large_array_layout": 40, "converter_reused": 2000, "scalar_exact": 5000, "numpy_vs_scalar": 3000,
           "deprecated_vs_scalar": 3000, "inverse_exact": 500,
           "saturated_high": 200, "saturated_low": 200}
 SHARDS = {"quick": 16, "thorough": 64}
@@ -185,7 +185,15 @@ def run(case, ctx):
         with warnings.catch_warnings():
             warnings.simplefilter("ignore")
             snapshot = arr.copy()
-            out = c(arr)
+            if len(vals) % 3 == 0:
+                # the caller runs numpy with invalid operations raising (a
+                # common debugging setting): saturating is the converter's
+                # job, not an invalid operation of the caller's
+                ctx.hit("numpy_invalid_raises")
+                with np.errstate(invalid="raise"):
+                    out = c(arr)
+            else:
+                out = c(arr)
         check(np.array_equal(arr, snapshot), "numpy-input-mutated", "", **fmt)
         want_dtype = np.dtype("%s%d" % ("int" if signed else "uint", nb))
         check(out.dtype == want_dtype, "numpy-dtype", "%r want %r" %
